@@ -694,6 +694,104 @@ func runMap(data json.RawMessage) vh.Verdict {
 	return fs.verdict(map[string]int{"map_entries": len(c.Entries)})
 }
 
+// runMapConc (C09): the builder is written by several goroutines at once (Reserve is atomic, the bucket cursor is
+// guarded; ingest/compact writes entries from all its goroutines). N entries over few buckets are reserved, then
+// written by G goroutines concurrently in a seeded order; whatever the interleaving, the finished map must hold
+// exactly the abstract store (per ID: the multiset of its (tag, data) items).
+type mapConcCase struct {
+	ID int `json:"id"`
+	B  int `json:"b"`
+	T  int `json:"t"`
+	N  int `json:"n"`
+	G  int `json:"g"`
+}
+
+func runMapConc(data json.RawMessage) vh.Verdict {
+	var c mapConcCase
+	if err := json.Unmarshal(data, &c); err != nil {
+		return vh.Fail("harness-json", "bad case: %v", err)
+	}
+	rng := rand.New(rand.NewSource(vh.Seed*7919 + int64(c.ID)))
+	type ent struct {
+		id   uint64
+		tag  encoding.Tag
+		data []byte
+	}
+	es := make([]ent, c.N)
+	want := map[uint64][]item{}
+	for i := range es {
+		id := uint64(i/2 + 1) // two entries per ID
+		tag := encoding.Tag(0)
+		if c.T > 0 {
+			tag = encoding.Tag(i % (1 << c.T))
+		}
+		d := []byte(fmt.Sprintf("e%05d-%s", i, strings.Repeat("x", rng.Intn(6))))
+		es[i] = ent{id, tag, d}
+		want[id] = append(want[id], item{Tag: int(tag), Data: string(d)})
+	}
+	label := fmt.Sprintf("mapconc b=%d t=%d n=%d g=%d", c.B, c.T, c.N, c.G)
+	var fs failures
+	p := vh.Catch(func() {
+		mb := encoding.NewUint64MapBuilder(c.B, c.T)
+		for _, e := range es {
+			mb.Reserve(e.id, e.tag, len(e.data))
+		}
+		mb.FinishReservation()
+		var out encoding.Buffer
+		end, err := mb.WriteHeader(&out, 0)
+		if err != nil {
+			fs.add(label+" header", "WriteHeader: %v", err)
+			return
+		}
+		order := rng.Perm(len(es))
+		var wg sync.WaitGroup
+		var emu sync.Mutex
+		var werr error
+		start := make(chan struct{})
+		for g := 0; g < c.G; g++ {
+			wg.Add(1)
+			go func(g int) {
+				defer wg.Done()
+				<-start
+				for j := g; j < len(order); j += c.G {
+					e := es[order[j]]
+					if err := mb.WriteItem(e.id, e.tag, e.data, &out); err != nil {
+						emu.Lock()
+						werr = err
+						emu.Unlock()
+						return
+					}
+				}
+			}(g)
+		}
+		close(start)
+		wg.Wait()
+		if werr != nil {
+			fs.add(label+" write", "WriteItem: %v", werr)
+			return
+		}
+		out.WriteAt(bytes.Repeat([]byte{0xee}, 32), int64(end))
+		m := encoding.NewUint64Map(out.Bytes())
+		bad := 0
+		for id, w := range want {
+			var gi []item
+			for _, t := range m.FillTagged(id, nil) {
+				gi = append(gi, item{Tag: int(t.Tag), Data: string(t.Data)})
+			}
+			if multiset(gi) != multiset(w) {
+				bad++
+				if bad == 1 {
+					fs.add(label+" concurrent writers", "after %d goroutines wrote %d entries concurrently FillTagged(%d) = {%s}, written {%s}", c.G, c.N, id, shortData(multiset(gi)), shortData(multiset(w)))
+				}
+			}
+		}
+	})
+	if p != "" {
+		fs.add(label+" panic", "panic: %s", firstLine(p))
+	}
+	return fs.verdict(map[string]int{"concurrent_map_builds": 1, "concurrent_entries": c.N})
+}
+
 func firstLine(s string) string {
 	if i := strings.IndexByte(s, '\n'); i >= 0 {
 		return s[:i]
@@ -715,5 +813,6 @@ func main() {
 	vh.RegisterFunc("strings", runStrings)
 	vh.RegisterFunc("bytes", runBytes)
 	vh.RegisterFunc("map", runMap)
+	vh.RegisterFunc("mapconc", runMapConc)
 	vh.Main()
 }
